@@ -9,7 +9,8 @@ From Coq Require Import List NArith String Bool Lia Arith.
 From V Require Import Base.Util Base.Strings Base.Result Model.Registry Model.Settings Model.Subst
   Model.TypePath Model.Derives Model.Generate Model.Equal Model.WellFormed Model.Shape
   Model.Program Model.ProgramSkel Model.ProgramTeq
-  Proofs.GenProofs Proofs.ResolveTotal Proofs.GenTotal Proofs.CollectProofs Proofs.SourceRoundTrip Proofs.SourceSkeleton.
+  Proofs.GenProofs Proofs.ResolveTotal Proofs.GenTotal Proofs.CollectProofs Proofs.SourceRoundTrip Proofs.SourceSkeleton
+  Proofs.FidelityGen Proofs.KeepFirst Proofs.DedupProofs.
 Import ListNotations.
 Open Scope string_scope. Open Scope list_scope.
 
@@ -744,3 +745,243 @@ Proof.
   destruct (entry defs L r HR id2 _ Hl2) as (t2 & Hr2 & He2).
   exact (teq_instantiations defs L r HR d sd Hsd Hok args1 args2 Hcf1 Hcan1 Hcf2 Hcan2 id1 id2 t1 t2 Hl1 Hl2 He1 He2 Hr1 Hr2).
 Qed.
+
+(** ** generation does not fail with DuplicateTypePath on program registries of the fragment *)
+Lemma cmps_spec s : forall l pre id id0 p,
+  In (id, id0, p) (cmps s pre l) ->
+  exists X X0, In (id, X) l /\ item_eligible s X = true /\ p = t_path X /\
+               In (id0, X0) (pre ++ l) /\ item_eligible s X0 = true /\ t_path X0 = t_path X.
+Proof.
+  induction l as [|[i X] l IH]; intros pre id id0 p H; [destruct H|].
+  cbn [cmps] in H. apply in_app_or in H as [H|H].
+  - destruct (item_eligible s X) eqn:El; [|destruct H].
+    destruct (first_eligible pre s (t_path X)) as [[j X0]|] eqn:Ef; [|destruct H].
+    destruct H as [H|[]]. inversion H; subst i j p.
+    destruct (first_eligible_some _ _ _ _ _ Ef) as (Hin0 & Hp0 & El0).
+    exists X, X0. repeat split; auto using in_eq. apply in_or_app. left. exact Hin0.
+  - destruct (IH _ _ _ _ H) as (Y & Y0 & H1 & H2 & H3 & H4 & H5 & H6).
+    exists Y, Y0. repeat split; auto using in_cons. rewrite <- app_assoc in H4. exact H4.
+Qed.
+
+Lemma marker_teq r a b ta tb lsa lsb :
+  resolve r a = Some ta -> resolve r b = Some tb -> order_marker lsa ta -> order_marker lsb tb ->
+  t_path ta = t_path tb -> types_equal_res r a b = Ok true.
+Proof.
+  intros Ha Hb (Hpa & Hpsa & Hda) (Hpb & Hpsb & Hdb) Hp.
+  unfold types_equal_res. rewrite teq_S. destruct (N.eqb a b); [reflexivity|].
+  cbv zeta. cbn [fst snd mem_N existsb negb Bool.eqb andb]. rewrite Ha, Hb.
+  unfold glist_empty at 1 2. cbn [index_for_type_id position opt_nat_eqb].
+  rewrite Hp, path_eqb_refl. cbn [negb]. rewrite !param_ids_eq, Hpsa, Hpsb. cbn [flat_map List.length Nat.eqb negb].
+  unfold teq_def. rewrite Hda, Hdb. reflexivity.
+Qed.
+
+Section ProgramGenerates.
+  Variable defs : list sdef.
+  Variable L : N -> option src.
+  Variable r : registry.
+  Variable s : settings.
+  Hypothesis HR : RegistryOf defs L r.
+  Hypothesis Hids : ids_consistent r = true.
+  Hypothesis Hdefs : forall sd, In sd defs -> teq_program_okb sd = true /\ forall lsb, sd_path sd <> order_path_of lsb.
+  Hypothesis Hpaths : forall d1 d2 sd1 sd2,
+    nth_error defs d1 = Some sd1 -> nth_error defs d2 = Some sd2 -> sd_path sd1 = sd_path sd2 -> d1 = d2.
+  Hypothesis Hinst : forall id d args sd,
+    L id = Some (SApp d args) -> nth_error defs d = Some sd ->
+    instantiation_cf defs sd args = true /\ map canon args = args.
+
+  Lemma eligible_label id X :
+    In (id, X) r -> item_eligible s X = true ->
+    resolve r id = Some X /\
+    ((exists d args sd, L id = Some (SApp d args) /\ nth_error defs d = Some sd /\ t_path X = sd_path sd) \/
+     (exists lsb, order_marker lsb X)).
+  Proof.
+    intros Hin Hel. pose proof (ids_consistent_In r id X Hids Hin) as Hres. split; [exact Hres|].
+    destruct HR as (H1 & H2 & _). destruct (L id) as [c|] eqn:El.
+    - left. destruct (H1 _ _ El) as (t & Hr & He). rewrite Hres in Hr. inversion Hr; subst t.
+      destruct (entry_eligible defs L r s c X He Hel) as (d & args & ->).
+      cbn [entry_of] in He. destruct He as (sd & Hsd & Hp & _). exists d, args, sd. auto.
+    - right. exact (H2 _ _ Hres El).
+  Qed.
+
+  Theorem program_comparisons_equal :
+    Forall (fun c : cmp => types_equal r (fst (fst c)) (snd (fst c)) = Ok true) (comparisons r s).
+  Proof.
+    apply Forall_forall. intros [[id id0] p] Hc. cbn [fst snd].
+    destruct (cmps_spec s r [] id id0 p Hc) as (X & X0 & Hin & Hel & _ & Hin0 & Hel0 & Hp). cbn [app] in Hin0.
+    destruct (eligible_label id X Hin Hel) as (Hres & [(d & args & sd & Hl & Hsd & Hpx)|(lsb & Hm)]);
+      destruct (eligible_label id0 X0 Hin0 Hel0) as (Hres0 & [(d0 & args0 & sd0 & Hl0 & Hsd0 & Hpx0)|(lsb0 & Hm0)]).
+    - assert (d0 = d) by (apply (Hpaths d0 d sd0 sd Hsd0 Hsd); congruence). subst d0.
+      assert (sd0 = sd) by congruence. subst sd0.
+      destruct (Hdefs sd (nth_error_In _ _ Hsd)) as (Hok & _).
+      destruct (Hinst id d args sd Hl Hsd) as (Hcf & Hcan). destruct (Hinst id0 d args0 sd Hl0 Hsd) as (Hcf0 & Hcan0).
+      exact (teq_instantiations_labels defs L r HR d sd Hsd Hok args args0 Hcf Hcan Hcf0 Hcan0 id id0 Hl Hl0).
+    - exfalso. destruct Hm0 as (Hpm & _). destruct (Hdefs sd (nth_error_In _ _ Hsd)) as (_ & Hno).
+      apply (Hno lsb0). unfold order_path_of. congruence.
+    - exfalso. destruct Hm as (Hpm & _). destruct (Hdefs sd0 (nth_error_In _ _ Hsd0)) as (_ & Hno).
+      apply (Hno lsb). unfold order_path_of. congruence.
+    - apply (marker_teq r id id0 X X0 lsb lsb0); auto.
+  Qed.
+
+  (** ... hence generation succeeds whenever nothing else fails ([all_ok], Proofs/KeepFirst.v) *)
+  Theorem program_generates flat :
+    flatten (s_dreg s) r = Ok flat -> all_ok r s flat r -> exists m, generate r s (types_equal r) = Ok m.
+  Proof.
+    intros Hf Hok. apply (generate_ok_iff r s (types_equal r) flat); [|exact Hf|exact Hok|exact program_comparisons_equal].
+    rewrite sanity_pass_spec. apply first_bad_none_iff in Hids. rewrite Hids. reflexivity.
+  Qed.
+End ProgramGenerates.
+
+(** ** [ensure_unique_type_paths] leaves program registries of the fragment untouched: all
+    instantiations of a definition end up in ONE group *)
+Fixpoint bg_go (r : registry) (idx : N) (l : registry) (m : groups) : result groups :=
+  match l with
+  | [] => Ok m
+  | (_, t) :: l' =>
+      match namespace (t_path t) with
+      | [] => bg_go r (idx + 1)%N l' m
+      | _ => let* m' := groups_add r m (t_path t) idx in bg_go r (idx + 1)%N l' m'
+      end
+  end.
+
+Lemma bg_go_eq r : forall l idx m,
+  (fix go (idx : N) (l : registry) (m : groups) : result groups :=
+     match l with
+     | [] => Ok m
+     | (_, t) :: l' =>
+         match namespace (t_path t) with
+         | [] => go (idx + 1)%N l' m
+         | _ => let* m' := groups_add r m (t_path t) idx in go (idx + 1)%N l' m'
+         end
+     end) idx l m = bg_go r idx l m.
+Proof.
+  induction l as [|[i t] l IH]; intros idx m; [reflexivity|]. cbn [bg_go].
+  destruct (namespace (t_path t)); [apply IH|].
+  destruct (groups_add r m (t_path t) idx); cbn [bind]; auto.
+Qed.
+
+Lemma build_groups_go r : build_groups r = bg_go r 0%N r [].
+Proof. unfold build_groups. apply bg_go_eq. Qed.
+
+Section ProgramDedup.
+  Variable defs : list sdef.
+  Variable L : N -> option src.
+  Variable r : registry.
+  Hypothesis HR : RegistryOf defs L r.
+  Hypothesis Hids : ids_consistent r = true.
+  Hypothesis Hdefs : forall sd, In sd defs -> teq_program_okb sd = true /\ forall lsb, sd_path sd <> order_path_of lsb.
+  Hypothesis Hpaths : forall d1 d2 sd1 sd2,
+    nth_error defs d1 = Some sd1 -> nth_error defs d2 = Some sd2 -> sd_path sd1 = sd_path sd2 -> d1 = d2.
+  Hypothesis Hinst : forall id d args sd,
+    L id = Some (SApp d args) -> nth_error defs d = Some sd ->
+    instantiation_cf defs sd args = true /\ map canon args = args.
+
+  Lemma entry_namespaced c X : entry_of defs L r c X -> namespace (t_path X) <> [] -> exists d args, c = SApp d args.
+  Proof.
+    intros He Hns. destruct c; cbn [entry_of] in He.
+    - destruct He.
+    - eauto.
+    - destruct He as (e & (Hp & _) & _). rewrite Hp in Hns. cbn [namespace removelast] in Hns. congruence.
+    - destruct He.
+    - destruct He as (e & (Hp & _) & _). rewrite Hp in Hns. cbn [namespace removelast] in Hns. congruence.
+    - destruct He as (e & (Hp & _) & _). rewrite Hp in Hns. cbn [namespace removelast] in Hns. congruence.
+    - destruct He as (Hp & _). rewrite Hp in Hns. cbn [namespace removelast] in Hns. congruence.
+    - destruct He as (e & (Hp & _) & _). rewrite Hp in Hns. cbn [namespace removelast] in Hns. congruence.
+    - destruct He.
+    - destruct He as (e & _ & Hp & _). rewrite Hp in Hns. cbn [namespace removelast] in Hns. congruence.
+    - destruct He as (x & y & _ & _ & Hp & _). rewrite Hp in Hns. cbn [namespace removelast] in Hns. congruence.
+    - destruct He as (ik & iv & iseq & _ & _ & _ & Hp & _). rewrite Hp in Hns. cbn [namespace removelast] in Hns. congruence.
+    - destruct He as (e & iseq & _ & _ & Hp & _). rewrite Hp in Hns. cbn [namespace removelast] in Hns. congruence.
+    - destruct He as (e & _ & Hp & _). rewrite Hp in Hns. cbn [namespace removelast] in Hns. congruence.
+    - destruct He as (e & _ & Hp & _). rewrite Hp in Hns. cbn [namespace removelast] in Hns. congruence.
+    - destruct He as (ist & io & ot & (Hp & _) & _). rewrite Hp in Hns. cbn [namespace removelast] in Hns. congruence.
+  Qed.
+
+  Lemma namespaced_label a X :
+    resolve r a = Some X -> namespace (t_path X) <> [] ->
+    (exists d args sd, L a = Some (SApp d args) /\ nth_error defs d = Some sd /\ t_path X = sd_path sd) \/
+    (exists lsb, order_marker lsb X).
+  Proof.
+    intros Hres Hns. destruct HR as (H1 & H2 & _). destruct (L a) as [c|] eqn:El.
+    - left. destruct (H1 _ _ El) as (t & Hr & He). rewrite Hres in Hr. inversion Hr; subst t.
+      destruct (entry_namespaced c X He Hns) as (d & args & ->).
+      cbn [entry_of] in He. destruct He as (sd & Hsd & Hp & _). exists d, args, sd. auto.
+    - right. exact (H2 _ _ Hres El).
+  Qed.
+
+  Lemma namespaced_equal a b X X0 :
+    resolve r a = Some X -> resolve r b = Some X0 -> namespace (t_path X) <> [] -> t_path X0 = t_path X ->
+    types_equal_res r a b = Ok true.
+  Proof.
+    intros Ha Hb Hns Hp. assert (Hns0 : namespace (t_path X0) <> []) by (rewrite Hp; exact Hns).
+    destruct (namespaced_label a X Ha Hns) as [(d & args & sd & Hl & Hsd & Hpx)|(lsb & Hm)];
+      destruct (namespaced_label b X0 Hb Hns0) as [(d0 & args0 & sd0 & Hl0 & Hsd0 & Hpx0)|(lsb0 & Hm0)].
+    - assert (d0 = d) by (apply (Hpaths d0 d sd0 sd Hsd0 Hsd); congruence). subst d0.
+      assert (sd0 = sd) by congruence. subst sd0.
+      destruct (Hdefs sd (nth_error_In _ _ Hsd)) as (Hok & _).
+      destruct (Hinst a d args sd Hl Hsd) as (Hcf & Hcan). destruct (Hinst b d args0 sd Hl0 Hsd) as (Hcf0 & Hcan0).
+      exact (teq_instantiations_labels defs L r HR d sd Hsd Hok args args0 Hcf Hcan Hcf0 Hcan0 a b Hl Hl0).
+    - exfalso. destruct Hm0 as (Hpm & _). destruct (Hdefs sd (nth_error_In _ _ Hsd)) as (_ & Hno).
+      apply (Hno lsb0). unfold order_path_of. congruence.
+    - exfalso. destruct Hm as (Hpm & _). destruct (Hdefs sd0 (nth_error_In _ _ Hsd0)) as (_ & Hno).
+      apply (Hno lsb). unfold order_path_of. congruence.
+    - apply (marker_teq r a b X X0 lsb lsb0); auto.
+  Qed.
+
+  (** every path has ONE group, whose members are earlier entries with that (namespaced) path *)
+  Definition Gm (m : groups) : Prop :=
+    forall k gs, In (k, gs) m ->
+      exists other g, gs = [other :: g] /\ namespace k <> [] /\
+                      forall i, In i (other :: g) -> exists t, resolve r i = Some t /\ t_path t = k.
+
+  Lemma groups_add_inv idx t : forall m,
+    Gm m -> resolve r idx = Some t -> namespace (t_path t) <> [] ->
+    exists m', groups_add r m (t_path t) idx = Ok m' /\ Gm m'.
+  Proof.
+    intros m HG Hres Hns. induction m as [|[k gs] m IH].
+    - cbn [groups_add]. eexists. split; [reflexivity|]. intros k gs [E|[]]. inversion E; subst.
+      exists idx, []. split; [reflexivity|]. split; [exact Hns|]. intros i [<-|[]]. eauto.
+    - cbn [groups_add]. destruct (path_eqb k (t_path t)) eqn:Ek.
+      + apply path_eqb_eq in Ek. subst k.
+        destruct (HG _ _ (or_introl eq_refl)) as (other & g & -> & _ & Hmem).
+        cbn [add_to_groups]. destruct (Hmem other (or_introl eq_refl)) as (t0 & Hr0 & Hp0).
+        rewrite (namespaced_equal idx other t t0 Hres Hr0 Hns Hp0). cbn [bind].
+        eexists. split; [reflexivity|]. intros k gs [E|Hin].
+        * inversion E; subst. exists other, (g ++ [idx]). split; [reflexivity|]. split; [exact Hns|].
+          intros i Hi. change (In i ((other :: g) ++ [idx])) in Hi. apply in_app_or in Hi as [Hi|[<-|[]]]; eauto.
+        * apply HG. right. exact Hin.
+      + destruct IH as (m' & Hm' & HG'). { intros k' gs' Hin. apply HG. right. exact Hin. }
+        rewrite Hm'. cbn [bind]. eexists. split; [reflexivity|]. intros k' gs' [E|Hin].
+        * inversion E; subst. apply HG. left. reflexivity.
+        * apply HG'. exact Hin.
+  Qed.
+
+  Lemma bg_go_inv : forall l pre m,
+    r = pre ++ l -> Gm m -> exists m', bg_go r (N.of_nat (List.length pre)) l m = Ok m' /\ Gm m'.
+  Proof.
+    induction l as [|[i t] l IH]; intros pre m Hr HG; [exists m; split; [reflexivity|exact HG]|].
+    cbn [bg_go].
+    assert (Hres : resolve r (N.of_nat (List.length pre)) = Some t).
+    { unfold resolve. rewrite Nat2N.id, Hr, nth_error_app2, Nat.sub_diag by apply le_n. reflexivity. }
+    assert (Hnext : (N.of_nat (List.length pre) + 1)%N = N.of_nat (List.length (pre ++ [(i, t)]))).
+    { rewrite app_length. cbn [List.length]. lia. }
+    assert (Hr' : r = (pre ++ [(i, t)]) ++ l) by (rewrite <- app_assoc; exact Hr).
+    destruct (namespace (t_path t)) as [|n0 ns] eqn:Ens.
+    - rewrite Hnext. apply IH; assumption.
+    - destruct (groups_add_inv _ t m HG Hres) as (m' & Hm' & HG'); [rewrite Ens; discriminate|].
+      rewrite Hm'. cbn [bind]. rewrite Hnext. apply IH; assumption.
+  Qed.
+
+  Lemma rename_pass_id m : (forall i, suffix_for m i = None) -> forall l idx, rename_pass m idx l = l.
+  Proof.
+    intros H. induction l as [|[i t] l IH]; intros idx; [reflexivity|]. cbn [rename_pass]. rewrite H, IH. reflexivity.
+  Qed.
+
+  Theorem program_dedup_untouched : ensure_unique r = Ok r.
+  Proof.
+    rewrite ensure_unique_unfold, dedup_sanity_spec. apply first_bad_none_iff in Hids. rewrite Hids. cbn [bind].
+    rewrite build_groups_go.
+    destruct (bg_go_inv r [] [] eq_refl) as (m & Hm & HG). { intros k gs []. }
+    cbn [List.length N.of_nat] in Hm. rewrite Hm. cbn [bind]. f_equal. apply rename_pass_id.
+    intros i. apply suffix_for_single. intros p gs Hin. destruct (HG _ _ Hin) as (other & g & -> & _). apply le_n.
+  Qed.
+End ProgramDedup.
